@@ -125,6 +125,7 @@ structure UnsubRec where
   via : Nat
   c : Int          -- -1 = nil channel; -2 = UnsubAll
   invAt : Nat
+  retAt : Option Nat := none
 
 structure Book where
   line : Nat := 0
@@ -211,7 +212,8 @@ def checkUnsubAllRet (b : Book) (u : Nat) : Book :=
   | none => b.flag "violated:unsuballret-without-inv"
   | some r =>
     let target := b.cloneChan r.via
-    { b with chs := b.chs.map (fun ch =>
+    { b with unsubs := b.unsubs.map (fun r' => if r'.u == u && r'.c == -2 then { r' with retAt := firstSome r'.retAt b.line } else r'),
+             chs := b.chs.map (fun ch =>
         if lt? ch.subretAt r.invAt && (r.via == 0 || target == some ch.c) then
           { ch with removedAt := firstSome ch.removedAt b.line } else ch) }
 
@@ -263,7 +265,11 @@ def touch (b : Book) (pred : ChRec → Bool) : Book :=
 def observe (cfg : Cfg) (b : Book) : Event → Book
   | .sub c cap =>
     if (b.ch? c).isSome || b.mkch.contains c then b.flag "violated:channel-id-reused" else
-    { b with chs := b.chs ++ [{ c := c, cap := if cap < 0 then cfg.defBuf else cap.toNat, subAt := b.line }] }
+    -- an UnsubAll that was invoked earlier and has not returned yet may still take effect AFTER this Sub: the new channel can be removed
+    -- (closed) by it from now on (correction after a false alarm on `unsuballinv; sub c; subret c; unsuballret; closed c`, seed 7)
+    let pendingAll := b.unsubs.any (fun r => r.c == -2 && r.retAt.isNone)
+    { b with chs := b.chs ++ [{ c := c, cap := if cap < 0 then cfg.defBuf else cap.toNat, subAt := b.line,
+                                touchedAt := if pendingAll then some b.line else none }] }
   | .subret c => b.updCh c (fun ch => { ch with subretAt := firstSome ch.subretAt b.line })
   | .mkchan c => { b with mkch := b.mkch ++ [c] }
   | .withonly w via c => { b with clones := b.clones ++ [(w, via, c, b.line)] }
